@@ -2044,17 +2044,31 @@ class _Raised(Exception):
 class _Arg:
     """an argument of the public method: a scalar or an array-like, with what is known after conversions"""
 
-    def __init__(self, name, scalar, f8=False, contig=False, nd1=False):
+    def __init__(self, name, scalar, f8=False, contig=False, nd1=False, like=None, lossy=None):
         self.name, self.scalar, self.f8, self.contig, self.nd1 = name, scalar, f8, contig, nd1
+        # like: the argument is a scalar argument spread over a new array with one element per element of the array argument `like`
+        # lossy: how its values were (for some admissible input) changed on the way: stored in an element type that is not
+        # float64 (an integer type truncates, float32 rounds); a later conversion to float64 does not bring the value back
+        self.like, self.lossy = like, lossy
+
+    def derive(self, f8=None, contig=None, nd1=None, lossy=None):
+        """the same argument after a conversion: facts replaced where given, what happened to its values is kept"""
+        return _Arg(self.name, self.scalar, self.f8 if f8 is None else f8, self.contig if contig is None else contig,
+                    self.nd1 if nd1 is None else nd1, like=self.like, lossy=self.lossy or lossy)
 
     def converted(self):
-        return self.f8 and self.contig and self.nd1
+        return bool(self.f8 and self.contig and self.nd1 and not self.lossy)
 
     def untouched(self):
-        return not (self.f8 or self.contig or self.nd1)
+        return not (self.f8 or self.contig or self.nd1 or self.lossy or self.like)
+
+    def length_of(self):
+        """the argument whose length this value has"""
+        return self.like or self.name
 
     def __repr__(self):
-        return "%s<%s%s>" % (self.name, "scalar" if self.scalar else "array", "".join(t for t, on in ((",f8", self.f8), (",C", self.contig), (",1d", self.nd1)) if on))
+        return "%s<%s%s%s%s>" % (self.name, "scalar" if self.scalar else "array", "".join(t for t, on in ((",f8", self.f8), (",C", self.contig), (",1d", self.nd1)) if on),
+                                 ",spread over the length of %s" % self.like if self.like else "", ",VALUES CHANGED: %s" % self.lossy if self.lossy else "")
 
 
 class _Tag:
@@ -2316,7 +2330,7 @@ class _Interp:
         if key not in self.dec:
             raise _Need(key)
         if self.dec[key]:
-            b = _Arg(a.name, a.scalar, a.f8, a.contig, a.nd1)
+            b = a.derive()
             setattr(b, what, True)
             env[var] = b
             return pol
@@ -2405,9 +2419,9 @@ class _Interp:
                     return b.get(e.attr)
                 raise _Unsup("attribute %s of a named tuple (line %s)" % (e.attr, getattr(e, "lineno", "?")))
             if isinstance(b, _Arg) and e.attr == "size":
-                return _Tag("len", of=b.name)
+                return _Tag("len", of=b.length_of())
             if isinstance(b, _Arg) and e.attr == "shape":
-                return _Tag("shape", of=b.name)
+                return _Tag("shape", of=b.length_of())
             if isinstance(b, _Arg):
                 return _Tag("argattr", arg=b, name=e.attr)
             return _UNKNOWN
@@ -2606,9 +2620,9 @@ class _Interp:
             # a converted value (at least 1-d array) is not a scalar any more
             return pos[0].scalar and not pos[0].nd1
         if name in ("len", "numpy.size") and len(pos) == 1 and not kw and isinstance(pos[0], _Arg):
-            return _Tag("len", of=pos[0].name)
+            return _Tag("len", of=pos[0].length_of())
         if name == "numpy.shape" and len(pos) == 1 and not kw and isinstance(pos[0], _Arg):
-            return _Tag("shape", of=pos[0].name)
+            return _Tag("shape", of=pos[0].length_of())
         if name == "getattr" and len(pos) >= 2 and isinstance(pos[0], _Tag) and pos[0].kind == "ext" and isinstance(pos[1], str):
             return _Tag("extmethod", name=pos[1])
         if name == "getattr" and len(pos) >= 2 and isinstance(pos[0], _Tag) and pos[0].kind == "extobj" and isinstance(pos[1], str):
@@ -2629,24 +2643,91 @@ class _Interp:
                     isinstance(n0, _Tag) and n0.kind == "len" and self.dec.get("empty:" + n0.of) is True)
             if none and (d is None or self.is_f8(d)) and ("dtype" not in kw or len(pos) == 1):
                 return _Tag("emptyf8")
+        if name in self._NARROW_SCALAR and len(pos) == 1 and not kw and isinstance(pos[0], _Arg) and not (isinstance(c.func, ast.Name) and c.func.id in env):
+            # int(z) / round(z) / np.float32(z) / np.int64(z): the value is truncated or rounded to fewer digits
+            return pos[0].derive(lossy="%s stores it in a type narrower than float64" % norm(c))
+        sp_ = self.spread(name, c, pos, kw) if name else None
+        if sp_ is not None:
+            return sp_
         if name and name.startswith("numpy.") and pos and isinstance(pos[0], _Arg):
-            return self.numpy_conv(name[6:], pos, kw)
+            return self.numpy_conv(name[6:], pos, kw, norm(c))
         if isinstance(f, _Tag) and f.kind == "argattr" and f.name == "astype":
             a = f.arg
             d = pos[0] if pos else kw.get("dtype")
-            return _Arg(a.name, a.scalar, self.is_f8(d), a.contig, a.nd1)
+            return a.derive(f8=self.is_f8(d), lossy=self.narrowing(d, norm(c)))
         if isinstance(f, _Tag) and f.kind == "argattr" and not f.arg.scalar:
             a = f.arg
             if f.name in ("ravel", "flatten") and not pos and kw.get("order", "C") == "C":
                 # a C-ordered 1-d array of the same elements
-                return _Arg(a.name, a.scalar, a.f8, True, True)
+                return a.derive(contig=True, nd1=True)
             if f.name == "copy" and not pos and kw.get("order", "C") == "C":
-                return _Arg(a.name, a.scalar, a.f8, True, a.nd1)
+                return a.derive(contig=True)
             if f.name == "reshape" and pos and not kw and all(isinstance(x, int) and not isinstance(x, bool) for x in (pos[0] if isinstance(pos[0], tuple) else pos)) \
                     and len(pos[0] if isinstance(pos[0], tuple) else pos) >= 1:
                 # same elements and element type in at least one dimension; a contiguous array stays contiguous
-                return _Arg(a.name, a.scalar, a.f8, a.contig, True)
+                return a.derive(nd1=True)
         return _UNKNOWN
+
+    # element / scalar types that cannot hold every float64 value: integers and bool truncate, narrower floats round
+    _NARROW_STR = ("f4", "float32", "f", "single", "<f4", "=f4", "f2", "float16", "e", "half", "i8", "int64", "<i8", "=i8", "i4", "int32", "i2", "int16", "i1", "int8",
+                   "int", "int_", "intp", "l", "q", "i", "h", "b", "u1", "u2", "u4", "u8", "uint8", "uint16", "uint32", "uint64", "uint", "L", "Q", "I", "H", "B", "bool", "?")
+    _NARROW_GLOBAL = tuple("numpy." + n for n in ("float32", "single", "float16", "half", "int64", "int32", "int16", "int8", "int_", "intp", "intc", "longlong",
+                                                   "uint64", "uint32", "uint16", "uint8", "uint", "bool_", "bool")) + ("int", "builtins.int", "bool", "builtins.bool")
+    _NARROW_SCALAR = _NARROW_GLOBAL + ("round", "builtins.round", "math.floor", "math.ceil", "math.trunc")
+
+    def narrowing(self, d, text):
+        """why an explicit element type d loses part of a float64 value (None: it does not, or d is not one the checker knows)"""
+        if (isinstance(d, str) and d in self._NARROW_STR) or (isinstance(d, _Tag) and d.kind == "global" and d.name in self._NARROW_GLOBAL):
+            return "%s stores it in an element type narrower than float64" % text
+        return None
+
+    def spread(self, name, c, pos, kw):
+        """a scalar argument spread over a new array with one element per element of an array argument: np.full_like(array, scalar),
+        np.full(len(array) / array.shape / array.size, scalar), np.repeat(scalar, len(array)), np.broadcast_to(scalar, array.shape).
+        None when the call is not one of these.  The element type decides whether the scalar's value survives: full_like
+        without an element type takes the one of the array it is modelled on; the others take the scalar's own (exact)."""
+        def length_source(v):
+            v = v[0] if isinstance(v, tuple) and len(v) == 1 else v
+            return v.of if isinstance(v, _Tag) and v.kind in ("len", "shape") else None
+
+        text = norm(c)
+        if name == "numpy.full_like" and set(kw) <= {"fill_value", "dtype"} and 1 <= len(pos) <= 3:
+            like = pos[0]
+            fill = pos[1] if len(pos) > 1 else kw.get("fill_value")
+            if (len(pos) > 1 and "fill_value" in kw) or (len(pos) > 2 and "dtype" in kw):
+                return None
+            d = pos[2] if len(pos) > 2 else kw.get("dtype")
+            if not (isinstance(like, _Arg) and not like.scalar and like.like is None and isinstance(fill, _Arg) and fill.scalar and fill.like is None and not fill.nd1):
+                return None
+            if d is None:
+                f8 = like.f8
+                lossy = None if like.f8 else "%s takes the element type of %s, which is an integer type or float32 for an integer / float32 array or a list of integers" % (text, like.name)
+            else:
+                f8, lossy = self.is_f8(d), self.narrowing(d, text)
+                if not f8 and not lossy:
+                    return None
+            # a new array laid out like the model: C-contiguous when the model is
+            return _Arg(fill.name, False, f8, like.contig, like.nd1, like=like.length_of(), lossy=fill.lossy or lossy)
+        if name in ("numpy.full", "numpy.repeat", "numpy.broadcast_to", "numpy.tile"):
+            if name == "numpy.full":
+                shape, fill = (pos + [None, None])[0] if pos else kw.get("shape"), pos[1] if len(pos) > 1 else kw.get("fill_value")
+                d = pos[2] if len(pos) > 2 else kw.get("dtype")
+                if len(pos) > 3 or not set(kw) <= {"shape", "fill_value", "dtype"}:
+                    return None
+            else:
+                if len(pos) != 2 or kw:
+                    return None
+                fill, shape, d = pos[0], pos[1], None
+            src = length_source(shape)
+            if src is None or not (isinstance(fill, _Arg) and fill.scalar and fill.like is None and not fill.nd1) or src == fill.name:
+                return None
+            f8, lossy = False, None
+            if d is not None:
+                f8, lossy = self.is_f8(d), self.narrowing(d, text)
+                if not f8 and not lossy:
+                    return None
+            return _Arg(fill.name, False, f8, name != "numpy.broadcast_to", True, like=src, lossy=fill.lossy or lossy)
+        return None
 
     @staticmethod
     def is_f8(d):
@@ -2656,22 +2737,23 @@ class _Interp:
             return d.name in ("numpy.float64", "numpy.double", "numpy.float_", "float", "numpy.float")
         return False
 
-    def numpy_conv(self, fn, pos, kw):
+    def numpy_conv(self, fn, pos, kw, text=""):
         a = pos[0]
         if fn in ("asarray", "array", "asanyarray", "ascontiguousarray", "require"):
             d = pos[1] if len(pos) > 1 else kw.get("dtype")
             f8 = self.is_f8(d) or (a.f8 and d is None)
+            a = a.derive(lossy=self.narrowing(d, text or "numpy." + fn))
             if fn == "ascontiguousarray":
-                return _Arg(a.name, a.scalar, f8, True, True)
+                return a.derive(f8=f8, contig=True, nd1=True)
             if fn == "require":
                 req = pos[2] if len(pos) > 2 else kw.get("requirements")
                 req = req if isinstance(req, (tuple, list)) else (req,)
-                return _Arg(a.name, a.scalar, f8, a.contig or any(r in ("C", "C_CONTIGUOUS", "CONTIGUOUS") for r in req if isinstance(r, str)), a.nd1)
+                return a.derive(f8=f8, contig=a.contig or any(r in ("C", "C_CONTIGUOUS", "CONTIGUOUS") for r in req if isinstance(r, str)))
             order = kw.get("order", pos[2] if len(pos) > 2 and fn != "array" else None)
             ndmin = kw.get("ndmin", 0)
-            return _Arg(a.name, a.scalar, f8, order == "C" or (a.contig and order in (None, "K", "A")), a.nd1 or (isinstance(ndmin, int) and ndmin >= 1))
+            return a.derive(f8=f8, contig=order == "C" or (a.contig and order in (None, "K", "A")), nd1=a.nd1 or (isinstance(ndmin, int) and ndmin >= 1))
         if fn == "atleast_1d" and len(pos) == 1:
-            return _Arg(a.name, a.scalar, a.f8, a.contig, True)
+            return a.derive(nd1=True)
         return _UNKNOWN
 
 
@@ -2765,7 +2847,21 @@ def _ext_call_ok(o, name, argnames):
     if o["kind"] != "return" or len(o["calls"]) != 1:
         return False
     n, pos, kw = o["calls"][0]
-    return n == name and not kw and len(pos) == len(argnames) and all(isinstance(a, _Arg) and a.name == an for a, an in zip(pos, argnames))
+    return n == name and not kw and len(pos) == len(argnames) and all(isinstance(a, _Arg) and a.name == an and a.like is None for a, an in zip(pos, argnames))
+
+
+def _spread_call_ok(o, name, argnames, scalars):
+    """the path makes exactly one call into the extension object, to the two-array entry `name`, with the method's own arguments
+    in order, the scalar one spread over a new array with one element per element of the array one: element i of the result is
+    then the quantity of (array[i], scalar), which is what the one-array entry computes (R11.3: every vector wrapper computes
+    element by element; equal lengths by construction)"""
+    if o["kind"] != "return" or len(o["calls"]) != 1 or len(argnames) != 2 or sorted(scalars) != [False, True]:
+        return False
+    n, pos, kw = o["calls"][0]
+    if not (n == name and not kw and len(pos) == 2 and all(isinstance(a, _Arg) and a.name == an for a, an in zip(pos, argnames))):
+        return False
+    arr, sc = (pos[1], pos[0]) if scalars[0] else (pos[0], pos[1])
+    return arr.like is None and not arr.scalar and sc.like == arr.name
 
 
 def dispatch(chk, repo):
@@ -2783,23 +2879,28 @@ def dispatch(chk, repo):
                 selfcmp = sorted(set(_SELF_COMPARED))
                 if outs is None:
                     continue
+                def call_ok(o, want=cq + suffix, both=cq + "_2vec", scalars=(s1, s2)):
+                    # the entry for this combination of scalar / array arguments, or (one scalar, one array) the two-array entry
+                    # with the scalar spread over the length of the array
+                    return _ext_call_ok(o, want, (a1, a2)) or _spread_call_ok(o, both, (a1, a2), scalars)
+
                 # paths on which two array arguments were found to differ in length are judged by the rejection rule below
                 normal = [o for o in outs if not o["dec"].get("lengths-differ")]
                 # paths taken only for an array argument without elements (outside the lengths 1..N the property is about): fine
                 # when they hand back what the wrapper would (a new empty float64 array), otherwise not identified
                 on_empty = [o for o in normal if _on_empty_input(o)]
                 normal = [o for o in normal if o not in on_empty]
-                odd_empty = [o for o in on_empty if not _empty_result(o) and not _ext_call_ok(o, cq + suffix, (a1, a2))]
-                normal += [o for o in on_empty if _ext_call_ok(o, cq + suffix, (a1, a2))]
+                odd_empty = [o for o in on_empty if not _empty_result(o) and not call_ok(o)]
+                normal += [o for o in on_empty if call_ok(o)]
                 # a path that raises, before any call into the extension, on a test the interpreter could not decide: a rejection
                 # the checker has not identified (possibly the length check in a spelling it does not know) -- no verdict from it
                 unknown_reject = [o for o in normal if o["kind"] == "raise" and not o["calls"] and _raise_hangs_on_unknown_test(o, outs)]
                 normal = [o for o in normal if o not in unknown_reject]
                 normal_all += normal
                 found = [(o["kind"], [(n, pos) for n, pos, _ in o["calls"]]) for o in normal]
-                ok = bool(normal) and all(_ext_call_ok(o, cq + suffix, (a1, a2)) for o in normal)
-                blind = [o for o in normal if not _ext_call_ok(o, cq + suffix, (a1, a2)) and _blind(o)]
-                if (ok and (unknown_reject or odd_empty)) or (not ok and blind and all(_ext_call_ok(o, cq + suffix, (a1, a2)) for o in normal if o not in blind)):
+                ok = bool(normal) and all(call_ok(o) for o in normal)
+                blind = [o for o in normal if not call_ok(o) and _blind(o)]
+                if (ok and (unknown_reject or odd_empty)) or (not ok and blind and all(call_ok(o) for o in normal if o not in blind)):
                     # the extension call goes through a callee the interpreter could not follow (or some rejection was not
                     # identified): nothing contradicts the rule, nothing establishes it
                     ok = None
@@ -2809,8 +2910,10 @@ def dispatch(chk, repo):
                         "; and path(s) for an argument without elements that do something not identified: %s" % [(o["kind"], o["value"]) for o in odd_empty] if odd_empty else ""))
                 # array arguments reach the extension converted (float64, C-contiguous, at least 1-d), scalars untouched
                 if ok:
-                    good = all(all((a.untouched() if s else a.converted()) for a, s in zip(o["calls"][0][1], (s1, s2))) for o in normal)
-                    chk.ob("R11.4", tag + "::converts-array-arguments", good, fi.where(), "array arguments are converted to float64 C-contiguous, scalars passed as given (found %s)" % found)
+                    good = all(all((a.untouched() if (s and a.like is None) else a.converted()) for a, s in zip(o["calls"][0][1], (s1, s2))) for o in normal)
+                    changed = sorted({"%s: %s" % (a.name, a.lossy) for o in normal for a in o["calls"][0][1] if a.lossy})
+                    chk.ob("R11.4", tag + "::converts-array-arguments", good, fi.where(), "array arguments are converted to float64 C-contiguous with their values kept, scalars passed as given (or spread over a float64 array with their value kept) (found %s)%s" % (
+                        found, "; the value of an argument does not reach the extension as given -- " + "; ".join(changed) if changed else ""))
                 else:
                     chk.ob("R11.4", tag + "::converts-array-arguments", None, fi.where(), "no single extension call to look at (found %s)" % found)
                 if not s1 and not s2:
@@ -3171,6 +3274,37 @@ class _ObjInterp(_Interp):
             if isinstance(b, _Tag) and b.kind == "extobj":
                 return _Tag("extacc", obj=b, name=e.attr)
         return _Interp.ev(self, e, env, fi, depth)
+
+    # a test of a floating-point-faithful term against zero: rounding keeps zero-ness (a product or quotient of doubles is zero
+    # only when a factor / the numerator is, a sum or difference only when the exact one is -- short of underflow, which the
+    # parameter ranges of the property exclude), so the test is decided as on the term of real algebra the roundings stand for
+    @staticmethod
+    def _unfl(t):
+        ops = {"fl_add": lambda a, b: a + b, "fl_sub": lambda a, b: a - b, "fl_mul": lambda a, b: a * b, "fl_div": lambda a, b: a / b}
+        return t.replace(lambda x: isinstance(x, sp.Function) and type(x).__name__ in ops and len(x.args) == 2, lambda x: ops[type(x).__name__](*x.args))
+
+    @staticmethod
+    def _has_fl(t):
+        return isinstance(t, sp.Basic) and any(type(x).__name__.startswith("fl_") for x in t.atoms(sp.Function))
+
+    def compare(self, op, a, b):
+        if self.fp and isinstance(op, (ast.Eq, ast.NotEq)):
+            def zero(x):
+                return isinstance(x, (int, float)) and not isinstance(x, bool) and x == 0
+            if self._has_fl(a) and zero(b):
+                return _Interp.compare(self, op, self._unfl(a), b)
+            if self._has_fl(b) and zero(a):
+                return _Interp.compare(self, op, a, self._unfl(b))
+        return _Interp.compare(self, op, a, b)
+
+    def as_bool(self, v, e, env=None):
+        if self.fp and self._has_fl(v):
+            u = self._unfl(v)
+            if u.is_zero is True:
+                return False
+            if u.is_nonzero is True or u.is_zero is False:
+                return True
+        return _Interp.as_bool(self, v, e, env)
 
     def call(self, c, env, fi, depth):
         f = self.ev(c.func, env, fi, depth)
